@@ -43,6 +43,7 @@ type emitSel struct {
 	argIs string   // optional: for emCall — some argument's text must contain this
 	text  string   // optional: the emitted literal/call text must contain this (e.g. a constant message)
 	args  []string // optional, for emCall: positional argument texts ("" = any) that must be contained
+	ctor  bool     // set by the row engine on its fallback pass: a literal may be built by a called constructor
 }
 
 func splitType(s string) (pkg, name string) {
@@ -97,9 +98,14 @@ func callNamed(info *types.Info, e ast.Expr, name string) *ast.CallExpr {
 
 // findEmissions returns the emission nodes of a row in fn.
 func findEmissions(fn *Func, sel emitSel) []ast.Node {
+	return findEmissionsIn(fn, fn.Body, sel)
+}
+
+// findEmissionsIn: the same over a given (possibly substituted) body of fn.
+func findEmissionsIn(fn *Func, body ast.Node, sel emitSel) []ast.Node {
 	info := fn.Info()
 	var out []ast.Node
-	ast.Inspect(fn.Body, func(n ast.Node) bool {
+	ast.Inspect(body, func(n ast.Node) bool {
 		if lit, ok := n.(*ast.FuncLit); ok && lit != fn.Lit {
 			return false
 		}
@@ -126,7 +132,7 @@ func findEmissions(fn *Func, sel emitSel) []ast.Node {
 						out = append(out, call)
 					}
 				}
-				if sel.kind == emAppendLit && litMatches(info, a, sel) {
+				if sel.kind == emAppendLit && (litMatches(info, a, sel) || (sel.ctor && ctorLitMatches(fn, a, sel))) {
 					out = append(out, call)
 				}
 				if sel.kind == emAppendIdent {
@@ -199,7 +205,7 @@ func findEmissions(fn *Func, sel emitSel) []ast.Node {
 		case emReturnLit:
 			if rs, ok := n.(*ast.ReturnStmt); ok {
 				for _, res := range rs.Results {
-					if litMatches(info, res, sel) {
+					if litMatches(info, res, sel) || (sel.ctor && ctorLitMatches(fn, res, sel)) {
 						out = append(out, rs)
 					}
 				}
@@ -352,6 +358,23 @@ func lastSel(e ast.Expr) string {
 	return ""
 }
 
+// aliasSel: for a local defined once as a pure selector chain (`ext := bodySchema.Extensions`),
+// the last selector of that definition.
+func aliasSel(fn *Func, e ast.Expr) string {
+	id, ok := ast.Unparen(e).(*ast.Ident)
+	if !ok {
+		return ""
+	}
+	def := fn.SingleDef(fn.Info().ObjectOf(id))
+	if def == nil {
+		return ""
+	}
+	if s, ok := ast.Unparen(def).(*ast.SelectorExpr); ok {
+		return s.Sel.Name
+	}
+	return ""
+}
+
 // cmpText: normalised text of a comparison (package qualifiers dropped).
 func cmpText(e ast.Expr) string {
 	s := exprStr(e)
@@ -364,6 +387,7 @@ func cmpText(e ast.Expr) string {
 // atomMatches: does atom a establish guard g?
 func atomMatches(fn *Func, a *Atom, g guard) bool {
 	info := fn.Info()
+	a = fn.viewAtom(a)
 	if a.E == nil {
 		if g.kind == gOkLookup && a.TypeX != nil && a.Pol == g.pol {
 			for _, t := range a.Types {
@@ -393,7 +417,7 @@ func atomMatches(fn *Func, a *Atom, g guard) bool {
 				return a.Pol == g.pol
 			}
 		case *ast.Ident:
-			if x.Name == g.name {
+			if x.Name == g.name || aliasSel(fn, x) == g.name {
 				return a.Pol == g.pol
 			}
 		}
@@ -405,7 +429,7 @@ func atomMatches(fn *Func, a *Atom, g guard) bool {
 			} else if isNilIdent(info, be.X) {
 				other = be.Y
 			}
-			if other != nil && lastSel(other) == g.name {
+			if other != nil && (lastSel(other) == g.name || aliasSel(fn, other) == g.name) {
 				isNil := (be.Op == token.EQL) == a.Pol
 				return isNil == g.pol
 			}
@@ -764,21 +788,20 @@ func runRows(prop string) func(p *Prog, r *Report) {
 			}
 			nRows++
 			sites := 0
+			// the named function, plus (for emissions a refactoring moved) the same-package
+			// helpers it reaches through at most two static calls
+			var named []*Func
 			for _, fn := range p.Funcs {
-				if !strings.HasSuffix(fn.Pkg.PkgPath, rw.pkg) {
+				if fn.Parent != nil || !strings.HasSuffix(fn.Pkg.PkgPath, rw.pkg) {
 					continue
 				}
-				root := fn
-				for root.Parent != nil {
-					root = root.Parent
-				}
-				if rw.fn != "" && bareFuncName(root) != rw.fn {
+				if rw.fn != "" && bareFuncName(fn) != rw.fn {
 					continue
 				}
 				if rw.recv != "" {
 					ok := false
-					if root.Obj != nil {
-						if sig := root.Obj.Type().(*types.Signature); sig.Recv() != nil {
+					if fn.Obj != nil {
+						if sig := fn.Obj.Type().(*types.Signature); sig.Recv() != nil {
 							if n := namedOf(sig.Recv().Type()); n != nil && n.Obj().Name() == rw.recv {
 								ok = true
 							}
@@ -788,22 +811,36 @@ func runRows(prop string) func(p *Prog, r *Report) {
 						continue
 					}
 				}
-				for _, em := range findEmissions(fn, rw.emit) {
-					if rw.emit.text != "" {
-						hit := false
-						ast.Inspect(em, func(n ast.Node) bool {
-							if bl, ok := n.(*ast.BasicLit); ok && strings.Contains(bl.Value, rw.emit.text) {
-								hit = true
-							}
-							if id, ok := n.(*ast.Ident); ok && id.Name == rw.emit.text {
-								hit = true
-							}
-							return true
-						})
-						if !hit {
-							continue
-						}
-					}
+				named = append(named, fn)
+			}
+			depthOf := map[*Func]int{}
+			if rw.fn != "" {
+				depthOf = helperClosure(p, named, 2)
+			} else {
+				for _, f := range named {
+					depthOf[f] = 0
+				}
+			}
+			// direct sites first; helpers are searched only while the confirmed number of
+			// sites is not met in the named function itself
+			direct := 0
+			for _, fn := range p.Funcs {
+				if d, ok := depthOf[rootOf(fn)]; ok && d == 0 {
+					direct += len(rowEmissions(fn, rw))
+				}
+			}
+			fallback := direct < rw.min
+			if fallback {
+				rw.emit.ctor = true
+			}
+			for _, fn := range p.Funcs {
+				d, ok := depthOf[rootOf(fn)]
+				if !ok || (d > 0 && !fallback) {
+					continue
+				}
+				for _, hit := range rowEmissions(fn, rw) {
+					em := hit.node
+					rootOf(fn).sigma = hit.sigma
 					sites++
 					if rw.disj != nil {
 						if msg := checkDisjunction(p, fn, em, rw.disj); msg != "" {
@@ -813,7 +850,7 @@ func runRows(prop string) func(p *Prog, r *Report) {
 					}
 					var missing []string
 					for _, g := range rw.need {
-						if !guardHolds(p5c, fn, em, g) {
+						if !guardHoldsInh(p5c, fn, em, g, 2) {
 							missing = append(missing, g.String())
 						}
 					}
@@ -825,35 +862,55 @@ func runRows(prop string) func(p *Prog, r *Report) {
 					}
 					if rw.exact != nil {
 						var extra []string
-						for _, a := range fn.GuardsAt(em).AllAtoms() {
-							if a == nil || a.Expanded || safeAtom(fn, a) {
-								continue
-							}
-							allowed := false
-							for _, g := range rw.need {
-								if g.kind == gAny {
-									for _, s := range g.sub {
-										if atomMatches(fn, a, s) {
-											allowed = true
+						judge := func(fx *Func, f *Formula) {
+							for _, a := range f.AllAtoms() {
+								if a == nil || a.Expanded || safeAtom(fx, a) {
+									continue
+								}
+								allowed := false
+								for _, g := range rw.need {
+									if g.kind == gAny {
+										for _, s := range g.sub {
+											if atomMatches(fx, a, s) {
+												allowed = true
+											}
 										}
+									} else if atomMatches(fx, a, g) {
+										allowed = true
 									}
-								} else if atomMatches(fn, a, g) {
-									allowed = true
+								}
+								txt := cmpText(fx.viewExpr(a.E))
+								for _, ex := range rw.exact {
+									if sameText(fx, txt, ex) || lastSel(fx.viewExpr(a.E)) == ex {
+										allowed = true
+									}
+								}
+								if !allowed {
+									pol := ""
+									if !a.Pol {
+										pol = "not "
+									}
+									extra = append(extra, pol+txt)
 								}
 							}
-							txt := cmpText(a.E)
-							for _, ex := range rw.exact {
-								if sameText(fn, txt, ex) || lastSel(a.E) == ex {
-									allowed = true
+						}
+						judge(fn, fn.GuardsAt(em))
+						// an emission found in a helper: the filters at its call sites count too
+						if d := depthOf[rootOf(fn)]; d > 0 {
+							var up func(f *Func, d int)
+							up = func(f *Func, d int) {
+								if d <= 0 {
+									return
+								}
+								for _, cs := range inheritSites(f) {
+									if _, in := depthOf[rootOf(cs.fn)]; !in {
+										continue
+									}
+									judge(cs.fn, cs.fn.GuardsAt(cs.call))
+									up(cs.fn, d-1)
 								}
 							}
-							if !allowed {
-								pol := ""
-								if !a.Pol {
-									pol = "not "
-								}
-								extra = append(extra, pol+txt)
-							}
+							up(fn, d)
 						}
 						if len(extra) == 0 {
 							// early exits of the enclosing loop that skip this emission for some items
@@ -948,6 +1005,7 @@ func runRows(prop string) func(p *Prog, r *Report) {
 					}
 					r.Add("E1.row", fn.Name, construct, p.Pos(em), OK, rw.why+" ⇐ "+strings.Join(gs, " ∧ "), true)
 				}
+				rootOf(fn).sigma = nil
 			}
 			if sites < rw.min {
 				r.Add("E1.row-anchor", rw.pkg+"."+rw.fn, rw.id, "-", Violated,
@@ -957,6 +1015,36 @@ func runRows(prop string) func(p *Prog, r *Report) {
 		r.ExpectMin("E1.rows", nRows, 1)
 		r.Clauses = append(r.Clauses, fmt.Sprintf("E1 %d reviewed obligation rows for %s: each emission point (append / call / return / literal, matched by resolved callee, literal type and field constant) is reached only through the success edges of its guards on every CFG path", nRows, prop))
 	}
+}
+
+// rowEmissions: the emissions of rw in fn (selector plus the optional text filter), directly
+// and under literal-table expansion.
+func rowEmissions(fn *Func, rw row) []emHit {
+	var hits []emHit
+	for _, em := range findEmissions(fn, rw.emit) {
+		hits = append(hits, emHit{node: em, view: em})
+	}
+	hits = append(hits, tableEmissions(fn, rw.emit)...)
+	var out []emHit
+	for _, h := range hits {
+		if rw.emit.text != "" {
+			hit := false
+			ast.Inspect(h.view, func(n ast.Node) bool {
+				if bl, ok := n.(*ast.BasicLit); ok && strings.Contains(bl.Value, rw.emit.text) {
+					hit = true
+				}
+				if id, ok := n.(*ast.Ident); ok && id.Name == rw.emit.text {
+					hit = true
+				}
+				return true
+			})
+			if !hit {
+				continue
+			}
+		}
+		out = append(out, h)
+	}
+	return out
 }
 
 // checkDisjunction: the nearest enclosing if statement whose body contains em has a
@@ -981,6 +1069,15 @@ func checkDisjunction(p *Prog, fn *Func, em ast.Node, want []string) string {
 		}
 	}
 	if ifs == nil && caseAlts == nil {
+		// the condition stayed at the call site(s) of an extracted helper
+		if sites := inheritSites(fn); len(sites) > 0 && fn.Lit == nil {
+			for _, cs := range sites {
+				if msg := checkDisjunction(p, cs.fn, cs.call, want); msg != "" {
+					return msg
+				}
+			}
+			return ""
+		}
 		return "the emission is not conditional any more (expected under: " + strings.Join(want, " || ") + ")"
 	}
 	var alts []string
